@@ -152,7 +152,16 @@ impl<T: Read + Seek, S: ReadableShape> Iterator for ShapeIterator<'_, T, S> {
                 }
             }
             let (hdr, shape) = match read_one_shape_as::<T, S>(self.source) {
-                Err(e) => return Some(Err(e)),
+                Err(e) => {
+                    // The source is now at an unknown position. With an index the next record
+                    // is found by seeking, without one there is no way to find it: stop.
+                    self.current_pos = if self.shapes_indices.is_some() {
+                        usize::MAX
+                    } else {
+                        self.file_length
+                    };
+                    return Some(Err(e));
+                }
                 Ok(hdr_and_shape) => hdr_and_shape,
             };
             self.current_pos += record::RecordHeader::SIZE;
